@@ -537,7 +537,7 @@ def r11_4(ctx, rr):
     for path, has_width, pad, mx in specs:
         b = F.one(path)
         ren = param_roles(b, ["bit_width", "len"])
-        sl = struct_literal_fields(F, b)
+        sl = struct_literal_fields(F, b, inline=ctx.memo("inliner", lambda: make_inliner(F)))
         if len(sl) != 1:
             raise AnchorMissing("%s: expected one struct literal" % b.key)
         L = {k: rename_vars(v, ren) for k, v in sl[0].items()}
@@ -615,7 +615,11 @@ def r05_6(ctx, rr):
         P = [("var", p["name"], p["id"]) for p in b.params]
         s = P[0]
         lhs, rhs, op = want_fn(s, P)
-        T = Termizer(F, b)
+        # immutable locals are expanded (the needed bits may be computed once and named), helpers inlined
+        T = Termizer(F, b, inline=ctx.memo("inliner", lambda: make_inliner(F)))
+        for n in walk(b.body):
+            if n.get("k") == "LetStmt" and "init" in n and n["pat"].get("k") == "PBind" and not n["pat"].get("mut"):
+                T.env[n["pat"]["id"]] = T.term(n["init"])
         found = None
         for n in walk(b.body):
             if n.get("k") == "If" and any(x.get("k") == "MethodCall" and x["name"] == grow and T.term(x["recv"]) == ("field", s, "bits") for x in walk(n["th"])):
@@ -830,6 +834,10 @@ def r11_5(ctx, rr):
                     return
                 amt = W.expand(W.T.term(n["args"][0]))
                 bad = [x for x in subterms(amt) if x[0] == "call" and isinstance(x[1], str) and x[1].split("::")[-1] in ("size_hint", "capacity")]
+                # ... nor from the number of words the backend happens to have (spare words left by a shrink
+                # would be carried along and added to): `bits.len() + k`
+                A, _k = lin(amt)
+                bad += [x for x in subterms(A) if x[0] == "call" and x[1] == "len" and len(x[2]) == 1 and mentions(x[2][0], lambda y: y[0] == "field" and y[2] == "bits")]
                 hits.append((n, not bad, tshow(amt)[:120]))
         Walker(F, b, on_node=on_node).run()
         for n, ok, amt in hits:
@@ -837,7 +845,7 @@ def r11_5(ctx, rr):
             key = "%s:backend-grows-to-logical-size" % short_fn(b.key)
             rr.ob(ok, key=key, sample={"fn": b.key, "call": show(F, n)[:80], "size": amt})
             if not ok:
-                rr.violate(key, "%s sizes the backend with `%s`, which derives from an iterator's size hint or a capacity, not from the number of elements actually stored: words beyond ceil(len * width / BITS) stay allocated" % (b.key, amt), F.loc(n))
+                rr.violate(key, "%s sizes the backend with `%s`, which derives from an iterator's size hint, a capacity or the current number of backend words, not from the number of elements actually stored: words beyond ceil(len * width / BITS) stay allocated" % (b.key, amt), F.loc(n))
 
 
 SHRINKERS = ("clear", "truncate", "pop", "drain", "split_off", "shrink_to", "shrink_to_fit", "remove", "swap_remove", "retain", "dedup")
@@ -1065,3 +1073,37 @@ def _ext_scope(b):
     if b.file.endswith("bits/bit_field_vec.rs"):
         return ["C05"]
     return ["C03"]
+
+
+@rule("R12.8", props=["C12", "C05"], floor=5, title="constructors and resize of the bit-field vectors compute `count * bit_width` with a checked multiplication (a wrapped product pairs a huge len with a tiny backend in release builds)")
+def r12_8(ctx, rr):
+    """overflow-checks are off in the release profile: `(len * bit_width).div_ceil(BITS)` wraps, the structure is
+    created with the caller's len and a backend of a few words, and the *checked* accessors (index < len) then read
+    and write out of bounds."""
+    F = ctx.F()
+    specs = [r"^bits::bit_field_vec::BitFieldVec::<W>::new$", r"^bits::bit_field_vec::BitFieldVec::<W>::new_unaligned$",
+             r"^bits::bit_field_vec::BitFieldVec::<W>::with_capacity$", r"^bits::bit_field_vec::BitFieldVec::<W>::resize$",
+             r"^bits::bit_field_vec::AtomicBitFieldVec::<W>::new$"]
+    # helpers whose whole job is a checked product
+    checked_helpers = set()
+    for h in F.fns():
+        if h.file.endswith("bits/bit_field_vec.rs") and not is_derived(h) and any(x.get("k") == "MethodCall" and x["name"] == "checked_mul" for x in walk(h.body)) and len([p for p in h.params if p.get("k") == "PBind"]) == 2:
+            checked_helpers.add(h.path)
+    for path in specs:
+        b = F.one(path)
+        pids = set(p["id"] for p in b.params if p.get("k") == "PBind" and p["name"] != "self")
+
+        def is_count(e):
+            return e.get("k") == "Path" and e.get("res") == "local" and e.get("id") in pids
+
+        def is_width(e):
+            return is_count(e) or (e.get("k") == "Field" and e["name"] == "bit_width") or (e.get("k") == "MethodCall" and e["name"] == "bit_width")
+        raw = [n for n in walk(b.body) if n.get("k") == "Binary" and n["op"] == "*" and not is_debug_only(F, n) and ((is_count(n["l"]) and is_width(n["r"])) or (is_count(n["r"]) and is_width(n["l"])))]
+        checked = [n for n in walk(b.body) if (n.get("k") == "MethodCall" and n["name"] == "checked_mul") or (n.get("k") == "Call" and (F.callee(n) or "") in checked_helpers)]
+        rr.instances += 1
+        key = "%s:checked-size-product" % short_fn(b.key)
+        ok = not raw and bool(checked)
+        rr.ob(ok, key=key, sample={"fn": b.key, "checked_products": len(checked), "raw_products": len(raw)})
+        if not ok:
+            where = raw[0] if raw else b.body
+            rr.violate(key, "%s computes the number of bits of caller-supplied sizes with an unchecked product (`%s`): in a release build it wraps, the vector keeps the caller's length over a backend of a few words, and get/set (whose index check passes) access memory out of bounds" % (b.key, show(F, raw[0])[:60] if raw else "no checked product found"), F.loc(where) if raw else b.span)
